@@ -13,74 +13,288 @@ func init() {
 	core.Register(&core.Rule{
 		ID:    "R18",
 		Title: "lazy map: the orderings each clause of the contract needs",
-		Text: "In d2/lazymap (go/cfg path automata, all paths): R18.1 on the winner's path value.v = f() and sync.Map.Store(key, value.v) both precede wg.Done(); " +
-			"R18.2 wg.Add(1) precedes the sync.Map.LoadOrStore that publishes the placeholder, Done is reached exactly once on the !loaded path and never on the loaded path; " +
-			"R18.3 every read of .v of an *inFlightValue obtained from the map is preceded by wg.Wait() on it, and a map-loaded value is returned only on the failed-assertion edge of s.(*inFlightValue); " +
-			"R18.4 Store overwrites unconditionally on the !stored edge and its closure only sets the flag and returns the value; " +
-			"R18.5 f is called at exactly one site, on the !loaded edge; R18.6 the map is touched only through sync.Map methods.",
+		Text: "In d2/lazymap (go/cfg path automata, all paths, every exit including falling off the end; conditions are edge facts, so if/else, early exits, " +
+			"switches and type switches are the same thing; locals with one definition and aliases of the sync.Map conversion are resolved): " +
+			"for every function that publishes a fresh placeholder with sync.Map.LoadOrStore — R18.1 on the winner's path the placeholder's v is assigned the payload " +
+			"and sync.Map.Store(key, that same value) is called, both before wg.Done(); R18.2 wg.Add(1) on the placeholder precedes its publication, Done is reached " +
+			"exactly once on the !loaded path and never on the loaded path; R18.5 the compute function is called at exactly one site, on the !loaded edge; " +
+			"for every function that obtains a value from the map — R18.3 every read of .v of a placeholder that is not the function's own is preceded by wg.Wait() on it, " +
+			"the raw map value is returned only where its assertion to *inFlightValue failed, and what is returned is the entry's value (the raw value, a placeholder's v, or the payload); " +
+			"R18.4 Store either funnels through LoadOrStore with a closure that only returns the value (optionally raising a flag) and overwrites on every exit where the flag is not known raised, " +
+			"or runs the placeholder protocol itself and, where the key was present, waits for an in-flight computation and then overwrites; " +
+			"R18.6 the map is touched only through sync.Map methods.",
 		Props: []string{"C18", "C17"},
 		Floor: map[string]int{"v2": 12, "root": 12},
 		Run:   runR18,
 	})
 }
 
-func runR18(c *core.Ctx) {
-	const rel = "d2/lazymap"
-	inf := info(c, rel)
-	_, los := mustDecl(c, rel, "(*LazySyncMap).LoadOrStore")
-	_, load := mustDecl(c, rel, "(*LazySyncMap).Load")
-	_, store := mustDecl(c, rel, "(*LazySyncMap).Store")
-	inflight, _ := mustObj(c, rel, "inFlightValue").(*types.TypeName)
-	isSyncMap := func(call *ast.CallExpr, name string) bool {
-		return core.IsMethod(core.Callee(inf, call), "sync", "Map", name)
-	}
-	isWG := func(call *ast.CallExpr, name string) (ast.Expr, bool) {
-		if !core.IsMethod(core.Callee(inf, call), "sync", "WaitGroup", name) {
-			return nil, false
-		}
-		sel, ok := core.Unparen(call.Fun).(*ast.SelectorExpr)
+// lazyFn is what R18 knows about one function of the lazy map.
+type lazyFn struct {
+	c    *core.Ctx
+	inf  *types.Info
+	fd   *ast.FuncDecl
+	name string
+	// nDefs counts the assignments of each local; def is the right-hand side of a local assigned exactly once, 1:1
+	nDefs map[types.Object]int
+	def   map[types.Object]ast.Expr
+	// key and val are the first and last parameter, fParam the function-typed one (the compute callback)
+	key, val, fParam types.Object
+	// pubCall is the sync.Map.LoadOrStore call, pub the fresh placeholder it publishes, loaded its second result
+	pubCall *ast.CallExpr
+	pub     types.Object
+	loaded  types.Object
+	// src is the variable holding the value obtained from the map, found the second result of sync.Map.Load
+	src, found types.Object
+	inflight   *types.TypeName
+}
+
+func (l *lazyFn) isSyncMap(call *ast.CallExpr, name string) bool {
+	return core.IsMethod(core.Callee(l.inf, call), "sync", "Map", name)
+}
+
+// resolve follows locals that are assigned exactly once back to what they were assigned.
+func (l *lazyFn) resolve(e ast.Expr) ast.Expr {
+	for i := 0; i < 8; i++ {
+		e = core.Unparen(e)
+		id, ok := e.(*ast.Ident)
 		if !ok {
-			return nil, false
+			return e
 		}
-		// receiver X.wg -> X
-		if inner, ok := core.Unparen(sel.X).(*ast.SelectorExpr); ok {
-			return inner.X, true
+		o := core.ObjOf(l.inf, id)
+		if o == nil || l.nDefs[o] != 1 || l.def[o] == nil {
+			return e
 		}
-		return sel.X, true
+		e = l.def[o]
 	}
-	// the compute callback parameter of LoadOrStore
-	var fParam types.Object
-	for _, fl := range los.Type.Params.List {
+	return e
+}
+
+// isFresh: new(inFlightValue) or &inFlightValue{…}
+func (l *lazyFn) isFresh(e ast.Expr) bool {
+	switch x := l.resolve(e).(type) {
+	case *ast.CallExpr:
+		if b, ok := core.ObjOf(l.inf, x.Fun).(*types.Builtin); ok && b.Name() == "new" && len(x.Args) == 1 {
+			nn := namedOf(l.inf.Types[x.Args[0]].Type)
+			return nn != nil && nn.Obj() == l.inflight
+		}
+	case *ast.UnaryExpr:
+		if cl, ok := core.Unparen(x.X).(*ast.CompositeLit); ok && x.Op == token.AND {
+			nn := namedOf(l.inf.Types[cl].Type)
+			return nn != nil && nn.Obj() == l.inflight
+		}
+	}
+	return false
+}
+
+// placeholderOf returns the variable X of an expression X (of type *inFlightValue), resolving aliases.
+func (l *lazyFn) placeholderOf(e ast.Expr) types.Object {
+	e = core.Unparen(e)
+	if id, ok := e.(*ast.Ident); ok {
+		o := core.ObjOf(l.inf, id)
+		if o == nil {
+			return nil
+		}
+		if nn := namedOf(o.Type()); nn == nil || nn.Obj() != l.inflight {
+			return nil
+		}
+		// alias of another placeholder variable
+		if l.nDefs[o] == 1 && l.def[o] != nil {
+			if id2, ok := core.Unparen(l.def[o]).(*ast.Ident); ok {
+				if o2 := l.placeholderOf(id2); o2 != nil {
+					return o2
+				}
+			}
+		}
+		return o
+	}
+	return nil
+}
+
+// vField: X.v of a placeholder X
+func (l *lazyFn) vField(e ast.Expr) (types.Object, bool) {
+	sel, ok := core.Unparen(e).(*ast.SelectorExpr)
+	if !ok {
+		return nil, false
+	}
+	fv, ok := core.ObjOf(l.inf, sel).(*types.Var)
+	if !ok || !fv.IsField() || fv.Name() != "v" {
+		return nil, false
+	}
+	if n := namedOf(l.inf.Types[sel.X].Type); n == nil || n.Obj() != l.inflight {
+		return nil, false
+	}
+	return l.placeholderOf(sel.X), true
+}
+
+// wg: X.wg.<name>() on a placeholder X
+func (l *lazyFn) wg(call *ast.CallExpr, name string) (types.Object, bool) {
+	if !core.IsMethod(core.Callee(l.inf, call), "sync", "WaitGroup", name) {
+		return nil, false
+	}
+	sel, ok := core.Unparen(call.Fun).(*ast.SelectorExpr)
+	if !ok {
+		return nil, false
+	}
+	if inner, ok := core.Unparen(sel.X).(*ast.SelectorExpr); ok {
+		return l.placeholderOf(inner.X), true
+	}
+	return nil, true
+}
+
+func (l *lazyFn) isF(call *ast.CallExpr) bool {
+	id, ok := core.Unparen(call.Fun).(*ast.Ident)
+	return ok && l.fParam != nil && core.ObjOf(l.inf, id) == l.fParam
+}
+
+// payload: what the winner publishes — the result of the compute callback where there is one, else the value parameter.
+// It returns the node (call) or object (parameter) that identifies it.
+func (l *lazyFn) payload(e ast.Expr) interface{} {
+	r := l.resolve(e)
+	if l.fParam != nil {
+		if call, ok := r.(*ast.CallExpr); ok && l.isF(call) {
+			return call
+		}
+		return nil
+	}
+	if id, ok := r.(*ast.Ident); ok && l.val != nil && core.ObjOf(l.inf, id) == l.val && l.nDefs[l.val] == 0 {
+		return l.val
+	}
+	return nil
+}
+
+func newLazyFn(c *core.Ctx, inf *types.Info, fd *ast.FuncDecl, inflight *types.TypeName) *lazyFn {
+	l := &lazyFn{c: c, inf: inf, fd: fd, name: core.DeclName(fd), nDefs: map[types.Object]int{}, def: map[types.Object]ast.Expr{}, inflight: inflight}
+	var params []types.Object
+	for _, fl := range fd.Type.Params.List {
 		for _, n := range fl.Names {
-			if _, ok := inf.Defs[n].Type().Underlying().(*types.Signature); ok {
-				fParam = inf.Defs[n]
+			o := inf.Defs[n]
+			params = append(params, o)
+			if _, ok := o.Type().Underlying().(*types.Signature); ok {
+				l.fParam = o
 			}
 		}
 	}
-	if fParam == nil {
-		c.Unknown(rel, "(*LazySyncMap).LoadOrStore", "compute parameter", los.Pos(), "no function-typed parameter")
-		return
-	}
-	isF := func(call *ast.CallExpr) bool {
-		id, ok := core.Unparen(call.Fun).(*ast.Ident)
-		return ok && core.ObjOf(inf, id) == fParam
-	}
-	isVField := func(e ast.Expr) (ast.Expr, bool) {
-		sel, ok := core.Unparen(e).(*ast.SelectorExpr)
-		if !ok {
-			return nil, false
+	if len(params) > 0 {
+		l.key = params[0]
+		if len(params) > 1 && l.fParam == nil {
+			l.val = params[len(params)-1]
 		}
-		fv, ok := core.ObjOf(inf, sel).(*types.Var)
-		if !ok || !fv.IsField() || fv.Name() != "v" {
-			return nil, false
-		}
-		if n := namedOf(inf.Types[sel.X].Type); n == nil || n.Obj() != inflight {
-			return nil, false
-		}
-		return sel.X, true
 	}
+	ast.Inspect(fd.Body, func(n ast.Node) bool {
+		switch x := n.(type) {
+		case *ast.AssignStmt:
+			for i, lhs := range x.Lhs {
+				o := core.ObjOf(inf, lhs)
+				if o == nil {
+					continue
+				}
+				l.nDefs[o]++
+				if len(x.Lhs) == len(x.Rhs) && (x.Tok == token.DEFINE || x.Tok == token.ASSIGN) {
+					l.def[o] = x.Rhs[i]
+				} else {
+					l.def[o] = nil
+				}
+			}
+			if len(x.Rhs) == 1 && len(x.Lhs) == 2 {
+				if call, ok := core.Unparen(x.Rhs[0]).(*ast.CallExpr); ok {
+					switch {
+					case l.isSyncMap(call, "LoadOrStore"):
+						l.src, l.loaded = core.ObjOf(inf, x.Lhs[0]), core.ObjOf(inf, x.Lhs[1])
+					case l.isSyncMap(call, "Load"):
+						l.src, l.found = core.ObjOf(inf, x.Lhs[0]), core.ObjOf(inf, x.Lhs[1])
+					}
+				}
+			}
+		case *ast.IncDecStmt:
+			if o := core.ObjOf(inf, x.X); o != nil {
+				l.nDefs[o] += 2
+			}
+		case *ast.ValueSpec:
+			for i, nm := range x.Names {
+				o := inf.Defs[nm]
+				l.nDefs[o]++
+				if i < len(x.Values) && len(x.Values) == len(x.Names) {
+					l.def[o] = x.Values[i]
+				}
+			}
+		case *ast.UnaryExpr:
+			if x.Op == token.AND {
+				if o := core.ObjOf(inf, x.X); o != nil {
+					l.nDefs[o] += 2 // address taken: not tracked
+				}
+			}
+		case *ast.CallExpr:
+			if l.isSyncMap(x, "LoadOrStore") && len(x.Args) == 2 {
+				l.pubCall = x
+			}
+		}
+		return true
+	})
+	if l.pubCall != nil && l.isFresh(l.pubCall.Args[1]) {
+		l.pub = l.placeholderOf(l.pubCall.Args[1])
+	}
+	return l
+}
 
-	// ---- LoadOrStore: one automaton, state bits
+type lazyVerdicts struct {
+	c     *core.Ctx
+	rel   string
+	fn    string
+	order []string
+	why   map[string]string
+	pos   map[string]token.Pos
+}
+
+func newLazyVerdicts(c *core.Ctx, rel, fn string, constructs ...string) *lazyVerdicts {
+	return &lazyVerdicts{c: c, rel: rel, fn: fn, order: constructs, why: map[string]string{}, pos: map[string]token.Pos{}}
+}
+
+func (v *lazyVerdicts) fail(construct, why string, pos token.Pos) {
+	if _, ok := v.why[construct]; !ok {
+		v.why[construct] = why
+		v.pos[construct] = pos
+	}
+}
+
+func (v *lazyVerdicts) pass(construct string, pos token.Pos) {
+	if _, ok := v.pos[construct]; !ok {
+		v.pos[construct] = pos
+	}
+}
+
+// flush reports every construct: violated with the first reason, discharged when it was met, violated as absent otherwise.
+func (v *lazyVerdicts) flush(at token.Pos, absent string) {
+	for _, k := range v.order {
+		pos, seen := v.pos[k]
+		switch why, bad := v.why[k]; {
+		case bad:
+			v.c.Bad(v.rel, v.fn, k, pos, why)
+		case !seen:
+			v.c.Bad(v.rel, v.fn, k, at, absent)
+		default:
+			v.c.OK(v.rel, v.fn, k, pos, "")
+		}
+	}
+}
+
+const (
+	r181  = "R18.1 value assigned and published before wg.Done()"
+	r182a = "R18.2 wg.Add(1) precedes publication of the placeholder"
+	r182b = "R18.2 Done exactly once, only on the winner's path"
+	r185a = "R18.5 compute function runs only on the !loaded edge"
+	r185b = "R18.5 compute function has exactly one call site"
+	r183a = "R18.3 in-flight value is read only after wg.Wait()"
+	r183b = "R18.3 a map-loaded value is returned only when it is not a placeholder"
+	r183c = "R18.3 what is returned is the entry's value"
+	r184a = "R18.4 the closure only sets the flag and returns the value"
+	r184b = "R18.4 Store overwrites unconditionally when it did not create the entry"
+	r184c = "R18.4 Store waits for an in-flight computation before overwriting"
+	r186  = "R18.6 the map is touched only through sync.Map methods"
+)
+
+// publisher checks the winner's protocol of a function that publishes a fresh placeholder.
+func (l *lazyFn) publisher(rel string) {
 	const (
 		bAdd = 1 << iota
 		bAssigned
@@ -89,80 +303,73 @@ func runR18(c *core.Ctx) {
 		bDone2
 		bLoadedT
 		bLoadedF
+		bPub
 	)
-	fn := "(*LazySyncMap).LoadOrStore"
-	flow := core.NewFlow(c.M, inf, los.Body)
-	type verdict struct{ bad string }
-	v := map[string]string{} // construct -> first failure
-	seen := map[string]token.Pos{}
-	fail := func(construct, why string, pos token.Pos) {
-		if _, ok := v[construct]; !ok {
-			v[construct] = why
-		}
-		seen[construct] = pos
+	constructs := []string{r181, r182a, r182b}
+	if l.fParam != nil {
+		constructs = append(constructs, r185a)
 	}
-	pass := func(construct string, pos token.Pos) {
-		if _, ok := seen[construct]; !ok {
-			seen[construct] = pos
-		}
+	v := newLazyVerdicts(l.c, rel, l.name, constructs...)
+	if l.pub == nil {
+		l.c.Bad(rel, l.name, r182a, l.pubCall.Pos(), "what sync.Map.LoadOrStore publishes is not a fresh *inFlightValue of this call")
+		return
 	}
 	fSites := map[*ast.CallExpr]bool{}
-	// which variable holds `loaded`
-	var loadedObj types.Object
-	ast.Inspect(los.Body, func(n ast.Node) bool {
-		if as, ok := n.(*ast.AssignStmt); ok && len(as.Rhs) == 1 && len(as.Lhs) == 2 {
-			if call, ok := core.Unparen(as.Rhs[0]).(*ast.CallExpr); ok && isSyncMap(call, "LoadOrStore") {
-				loadedObj = core.ObjOf(inf, as.Lhs[1])
-			}
-		}
-		return true
-	})
-	auto := &core.Automaton{
-		Init: 0,
+	var assigned interface{} // identity of the payload assigned to pub.v
+	hasResults := l.fd.Type.Results != nil && len(l.fd.Type.Results.List) > 0
+	winnerRet := ""
+	core.NewFlow(l.c.M, l.inf, l.fd.Body).Run(&core.Automaton{
+		AtEnd: true,
 		Node: func(state int, n ast.Node) int {
-			// assignment value.v = f()
-			if as, ok := n.(*ast.AssignStmt); ok && len(as.Lhs) == 1 && len(as.Rhs) == 1 {
-				if _, ok := isVField(as.Lhs[0]); ok {
-					if call, ok := core.Unparen(as.Rhs[0]).(*ast.CallExpr); ok && isF(call) {
-						state |= bAssigned
+			if as, ok := n.(*ast.AssignStmt); ok && len(as.Lhs) == len(as.Rhs) {
+				for i := range as.Lhs {
+					if x, ok := l.vField(as.Lhs[i]); ok && x == l.pub {
+						if p := l.payload(as.Rhs[i]); p != nil {
+							assigned = p
+							state |= bAssigned
+						} else {
+							state &^= bAssigned
+						}
 					}
 				}
 			}
 			for _, call := range core.CallsIn(n) {
 				switch {
-				case isF(call):
+				case l.isF(call):
 					fSites[call] = true
 					if state&bLoadedT != 0 || state&bLoadedF == 0 {
-						fail("R18.5 compute function runs only on the !loaded edge", "f() is reachable on a path where the key was already present (or before the atomic LoadOrStore)", call.Pos())
+						v.fail(r185a, "the compute function is reachable on a path where the key was already present (or before the atomic LoadOrStore)", call.Pos())
 					} else {
-						pass("R18.5 compute function runs only on the !loaded edge", call.Pos())
+						v.pass(r185a, call.Pos())
 					}
-				case isSyncMap(call, "LoadOrStore"):
+				case call == l.pubCall:
 					if state&bAdd == 0 {
-						fail("R18.2 wg.Add(1) precedes publication of the placeholder", "the placeholder becomes visible before its WaitGroup is armed: a waiter's Wait() can return before the value is set", call.Pos())
+						v.fail(r182a, "the placeholder becomes visible before its WaitGroup is armed: a waiter's Wait() can return before the value is set", call.Pos())
 					} else {
-						pass("R18.2 wg.Add(1) precedes publication of the placeholder", call.Pos())
+						v.pass(r182a, call.Pos())
 					}
-				case isSyncMap(call, "Store"):
-					// stored value must be value.v after assignment
-					okArg := false
-					if len(call.Args) == 2 {
-						if _, ok := isVField(call.Args[1]); ok && state&bAssigned != 0 {
-							okArg = true
+					state |= bPub
+				case l.isSyncMap(call, "Store"):
+					if len(call.Args) == 2 && core.ObjOf(l.inf, call.Args[0]) == l.key && state&bAssigned != 0 && state&bLoadedF != 0 {
+						if x, ok := l.vField(call.Args[1]); ok && x == l.pub {
+							state |= bStored
+						} else if p := l.payload(call.Args[1]); p != nil && p == assigned {
+							if _, isCall := core.Unparen(call.Args[1]).(*ast.CallExpr); !isCall {
+								state |= bStored
+							}
 						}
 					}
-					if okArg {
-						state |= bStored
+				}
+				if x, ok := l.wg(call, "Add"); ok && x == l.pub {
+					if cv := core.ConstOf(l.inf, call.Args[0]); cv != nil && cv.ExactString() == "1" {
+						state |= bAdd
 					}
 				}
-				if _, ok := isWG(call, "Add"); ok {
-					state |= bAdd
-				}
-				if _, ok := isWG(call, "Done"); ok {
+				if x, ok := l.wg(call, "Done"); ok && x == l.pub {
 					if state&bAssigned == 0 || state&bStored == 0 {
-						fail("R18.1 value assigned and published before wg.Done()", "Done() is reachable before value.v = f() and sync.Map.Store(key, value.v): a later Store can be overwritten and waiters can read an unset value", call.Pos())
+						v.fail(r181, "Done() is reachable before the placeholder's v is assigned the computed value and sync.Map.Store(key, that value) was called: a later Store can be overwritten and waiters can read an unset value", call.Pos())
 					} else {
-						pass("R18.1 value assigned and published before wg.Done()", call.Pos())
+						v.pass(r181, call.Pos())
 					}
 					if state&bDone != 0 {
 						state |= bDone2
@@ -172,17 +379,35 @@ func runR18(c *core.Ctx) {
 			}
 			if r, ok := n.(*ast.ReturnStmt); ok {
 				switch {
+				case state&bPub == 0:
+					// left before publishing anything
+					if state&bDone != 0 {
+						v.fail(r182b, "Done() is called on a path that never published the placeholder", r.Pos())
+					}
 				case state&bLoadedT != 0:
 					if state&bDone != 0 {
-						fail("R18.2 Done exactly once, only on the winner's path", "Done() is called on the path where the key was already present", r.Pos())
+						v.fail(r182b, "Done() is called on the path where the key was already present", r.Pos())
 					} else {
-						pass("R18.2 Done exactly once, only on the winner's path", r.Pos())
+						v.pass(r182b, r.Pos())
 					}
 				default:
 					if state&bDone == 0 || state&bDone2 != 0 {
-						fail("R18.2 Done exactly once, only on the winner's path", "the winner's path returns without calling Done() exactly once: waiters block forever or the WaitGroup panics", r.Pos())
+						v.fail(r182b, "the winner's path returns without calling Done() exactly once: waiters block forever or the WaitGroup panics", r.Pos())
 					} else {
-						pass("R18.2 Done exactly once, only on the winner's path", r.Pos())
+						v.pass(r182b, r.Pos())
+					}
+					if hasResults && len(r.Results) > 0 {
+						okRes := false
+						if x, ok := l.vField(r.Results[0]); ok && x == l.pub && state&bAssigned != 0 {
+							okRes = true
+						} else if p := l.payload(r.Results[0]); p != nil && p == assigned {
+							if _, isCall := core.Unparen(r.Results[0]).(*ast.CallExpr); !isCall {
+								okRes = true
+							}
+						}
+						if !okRes {
+							winnerRet = fmt.Sprintf("the winner returns %s, which is not the value it published", core.ExprString(r.Results[0]))
+						}
 					}
 				}
 			}
@@ -190,7 +415,10 @@ func runR18(c *core.Ctx) {
 		},
 		Edge: func(state int, facts []core.Fact) (int, bool) {
 			for _, f := range facts {
-				if id, ok := core.Unparen(f.Expr).(*ast.Ident); ok && loadedObj != nil && core.ObjOf(inf, id) == loadedObj {
+				if id, ok := core.Unparen(f.Expr).(*ast.Ident); ok && l.loaded != nil && core.ObjOf(l.inf, id) == l.loaded && state&bPub != 0 {
+					if (f.Val && state&bLoadedF != 0) || (!f.Val && state&bLoadedT != 0) {
+						return state, false
+					}
 					if f.Val {
 						state |= bLoadedT
 					} else {
@@ -200,73 +428,52 @@ func runR18(c *core.Ctx) {
 			}
 			return state, true
 		},
+	})
+	v.flush(l.fd.Pos(), "the required call is absent from "+l.name)
+	if l.fParam != nil {
+		l.c.Check(len(fSites) == 1, rel, l.name, r185b, l.fd.Pos(), "", fmt.Sprintf("%d call sites of the compute function", len(fSites)))
 	}
-	flow.Run(auto)
-	for _, k := range []string{"R18.1 value assigned and published before wg.Done()", "R18.2 wg.Add(1) precedes publication of the placeholder",
-		"R18.2 Done exactly once, only on the winner's path", "R18.5 compute function runs only on the !loaded edge"} {
-		pos, ok := seen[k]
-		if !ok {
-			c.Bad(rel, fn, k, los.Pos(), "the required call is absent from LoadOrStore")
-			continue
-		}
-		if why, bad := v[k]; bad {
-			c.Bad(rel, fn, k, pos, why)
-		} else {
-			c.OK(rel, fn, k, pos, "")
-		}
+	if hasResults {
+		l.c.Check(winnerRet == "", rel, l.name, "R18.1 the winner returns the value it published", l.fd.Pos(), "", winnerRet)
 	}
-	c.Check(len(fSites) == 1, rel, fn, "R18.5 compute function has exactly one call site", los.Pos(), "", fmt.Sprintf("%d call sites of f", len(fSites)))
+}
 
-	// ---- R18.3 in LoadOrStore and Load
-	for _, fd := range []*ast.FuncDecl{los, load} {
-		fnName := core.DeclName(fd)
-		par := core.Parents(fd)
-		// variables bound by assertion to *inFlightValue, and the map-loaded source variable
-		assertVars := map[types.Object]types.Object{} // v -> ok
-		var srcVar types.Object
-		ast.Inspect(fd.Body, func(n ast.Node) bool {
-			as, ok := n.(*ast.AssignStmt)
-			if !ok || len(as.Rhs) != 1 {
-				return true
+// reader checks what a function does with a value obtained from the map.
+func (l *lazyFn) reader(rel string) {
+	hasResults := l.fd.Type.Results != nil && len(l.fd.Type.Results.List) > 0
+	// foreign placeholders and the reads of their v
+	foreign := map[types.Object]bool{}
+	ast.Inspect(l.fd.Body, func(n ast.Node) bool {
+		if e, ok := n.(ast.Expr); ok {
+			if x, ok := l.vField(e); ok && x != nil && x != l.pub {
+				foreign[x] = true
 			}
-			switch r := core.Unparen(as.Rhs[0]).(type) {
-			case *ast.TypeAssertExpr:
-				if nn := namedOf(inf.Types[r.Type].Type); nn != nil && nn.Obj() == inflight && len(as.Lhs) == 2 {
-					assertVars[core.ObjOf(inf, as.Lhs[0])] = core.ObjOf(inf, as.Lhs[1])
-				}
-			case *ast.CallExpr:
-				if isSyncMap(r, "Load") || isSyncMap(r, "LoadOrStore") {
-					srcVar = core.ObjOf(inf, as.Lhs[0])
-				}
-			}
-			return true
-		})
-		if srcVar == nil {
-			c.Unknown(rel, fnName, "R18.3 map-loaded value", fd.Pos(), "no sync.Map Load/LoadOrStore result variable")
-			continue
 		}
-		// reads of X.v for asserted X need Wait before
-		fl := core.NewFlow(c.M, inf, fd.Body)
-		waitBad := false
-		reads := 0
-		fl.Run(&core.Automaton{
-			Init: 0,
+		return true
+	})
+	reads, waitBad := 0, false
+	for x := range foreign {
+		x := x
+		core.NewFlow(l.c.M, l.inf, l.fd.Body).Run(&core.Automaton{
 			Node: func(state int, n ast.Node) int {
 				for _, call := range core.CallsIn(n) {
-					if x, ok := isWG(call, "Wait"); ok {
-						if _, isAsserted := assertVars[core.ObjOf(inf, x)]; isAsserted {
-							state = 1
-						}
+					if y, ok := l.wg(call, "Wait"); ok && y == x {
+						state = 1
+					}
+				}
+				var lhs map[ast.Expr]bool
+				if as, ok := n.(*ast.AssignStmt); ok {
+					lhs = map[ast.Expr]bool{}
+					for _, e := range as.Lhs {
+						lhs[core.Unparen(e)] = true
 					}
 				}
 				core.WalkNoFuncLit(n, func(m ast.Node) bool {
-					if e, ok := m.(ast.Expr); ok {
-						if x, ok := isVField(e); ok {
-							if _, isAsserted := assertVars[core.ObjOf(inf, x)]; isAsserted {
-								reads++
-								if state != 1 {
-									waitBad = true
-								}
+					if e, ok := m.(ast.Expr); ok && !lhs[e] {
+						if y, ok := l.vField(e); ok && y == x {
+							reads++
+							if state != 1 {
+								waitBad = true
 							}
 						}
 					}
@@ -275,82 +482,383 @@ func runR18(c *core.Ctx) {
 				return state
 			},
 		})
-		c.Check(reads > 0 && !waitBad, rel, fnName, "R18.3 in-flight value is read only after wg.Wait()", fd.Pos(), fmt.Sprintf("%d reads", reads),
+	}
+	if hasResults || len(foreign) > 0 {
+		l.c.Check((reads > 0 || !hasResults) && !waitBad, rel, l.name, r183a, l.fd.Pos(), fmt.Sprintf("%d reads", reads),
 			"a placeholder's v is read on a path that has not waited for the computation (or is never read)")
-		// returns of the raw loaded value only on the failed-assertion edge
-		okRet, nRet := true, 0
-		for _, r := range core.ReturnsIn(fd.Body) {
-			if len(r.Results) == 0 || core.ObjOf(inf, r.Results[0]) != srcVar {
-				continue
-			}
-			nRet++
-			g := core.GuardedByFact(inf, par, r, func(f core.Fact) bool {
-				id, ok := core.Unparen(f.Expr).(*ast.Ident)
-				if !ok || f.Val {
-					return false
-				}
-				for _, okv := range assertVars {
-					if core.ObjOf(inf, id) == okv {
-						return true
-					}
-				}
-				return false
-			}, nil)
-			if !g {
-				okRet = false
-			}
-		}
-		c.Check(okRet && nRet > 0, rel, fnName, "R18.3 a map-loaded value is returned only when it is not a placeholder", fd.Pos(), "", "the raw map value is returned on a path where it can be an *inFlightValue")
 	}
-
-	// ---- R18.4 Store
-	sfn := "(*LazySyncMap).Store"
-	var valueParam, keyParam types.Object
-	if len(store.Type.Params.List) >= 2 {
-		keyParam = inf.Defs[store.Type.Params.List[0].Names[0]]
-		valueParam = inf.Defs[store.Type.Params.List[len(store.Type.Params.List)-1].Names[0]]
+	if !hasResults {
+		return
 	}
-	var flag types.Object
-	closureOK, overwriteOK := false, false
-	ast.Inspect(store.Body, func(n ast.Node) bool {
-		switch x := n.(type) {
-		case *ast.FuncLit:
-			if len(x.Body.List) == 2 {
-				as, ok1 := x.Body.List[0].(*ast.AssignStmt)
-				ret, ok2 := x.Body.List[1].(*ast.ReturnStmt)
-				if ok1 && ok2 && len(as.Lhs) == 1 && len(ret.Results) == 1 && core.ObjOf(inf, ret.Results[0]) == valueParam {
-					if cv := core.ConstOf(inf, as.Rhs[0]); cv != nil && cv.ExactString() == "true" {
-						flag = core.ObjOf(inf, as.Lhs[0])
-						closureOK = true
-					}
-				}
-			}
+	// what is returned
+	const (
+		bNotPH = 1 << iota
+		bNotFound
+		bLoadedF
+	)
+	isInflightAssert := func(e ast.Expr) bool {
+		ta, ok := core.Unparen(e).(*ast.TypeAssertExpr)
+		if !ok || ta.Type == nil || core.ObjOf(l.inf, l.resolve(ta.X)) != l.src {
 			return false
-		case *ast.IfStmt:
-			u, ok := core.Unparen(x.Cond).(*ast.UnaryExpr)
-			if ok && u.Op == token.NOT && flag != nil && core.ObjOf(inf, u.X) == flag && x.Else == nil {
-				for _, s := range x.Body.List {
-					if es, ok := s.(*ast.ExprStmt); ok {
-						if call, ok := es.X.(*ast.CallExpr); ok && isSyncMap(call, "Store") && len(call.Args) == 2 &&
-							core.ObjOf(inf, call.Args[0]) == keyParam && core.ObjOf(inf, call.Args[1]) == valueParam {
-							overwriteOK = true
-						}
-					}
-				}
+		}
+		tv, ok := l.inf.Types[ta.Type]
+		if !ok {
+			return false
+		}
+		nn := namedOf(tv.Type)
+		return nn != nil && nn.Obj() == l.inflight
+	}
+	okVars := map[types.Object]bool{}
+	ast.Inspect(l.fd.Body, func(n ast.Node) bool {
+		if as, ok := n.(*ast.AssignStmt); ok && len(as.Rhs) == 1 && len(as.Lhs) == 2 && isInflightAssert(as.Rhs[0]) {
+			if o := core.ObjOf(l.inf, as.Lhs[1]); o != nil {
+				okVars[o] = true
 			}
 		}
 		return true
 	})
-	c.Check(closureOK, rel, sfn, "R18.4 the closure only sets the flag and returns the value", store.Pos(), "", "Store's compute closure does more than `stored = true; return value`")
-	c.Check(overwriteOK, rel, sfn, "R18.4 Store overwrites unconditionally when it did not create the entry", store.Pos(), "", "no `if !stored { sync.Map.Store(key, value) }`: a Store ordered after an in-flight computation is lost")
+	rawBad, rawN, valueBad := "", 0, ""
+	core.NewFlow(l.c.M, l.inf, l.fd.Body).Run(&core.Automaton{
+		Node: func(state int, n ast.Node) int {
+			// a new lookup or assertion invalidates what was known
+			if as, ok := n.(*ast.AssignStmt); ok {
+				for _, lhs := range as.Lhs {
+					o := core.ObjOf(l.inf, lhs)
+					if o != nil && (o == l.src || okVars[o]) {
+						state &^= bNotPH
+					}
+				}
+			}
+			r, ok := n.(*ast.ReturnStmt)
+			if !ok || len(r.Results) == 0 {
+				return state
+			}
+			res := l.resolve(r.Results[0])
+			switch {
+			case core.ObjOf(l.inf, res) == l.src && l.src != nil:
+				rawN++
+				if state&bNotPH == 0 {
+					rawBad = "the raw map value is returned on a path where it can be an *inFlightValue"
+				}
+			case state&bNotFound != 0:
+				// nothing in the map: the result says so
+			default:
+				if _, isV := l.vField(res); isV {
+					break
+				}
+				if l.payload(res) != nil && state&bLoadedF != 0 {
+					break
+				}
+				valueBad = fmt.Sprintf("%s is returned, which is neither the entry found in the map nor the value this call computed", core.ExprString(r.Results[0]))
+			}
+			return state
+		},
+		Edge: func(state int, facts []core.Fact) (int, bool) {
+			for _, f := range facts {
+				e := core.Unparen(f.Expr)
+				if id, ok := e.(*ast.Ident); ok {
+					o := core.ObjOf(l.inf, id)
+					switch {
+					case okVars[o] && !f.Val:
+						state |= bNotPH
+					case o != nil && o == l.found && !f.Val:
+						state |= bNotFound
+					case o != nil && o == l.loaded && !f.Val:
+						state |= bLoadedF
+					}
+				}
+				if isInflightAssert(e) && !f.Val {
+					state |= bNotPH
+				}
+			}
+			return state, true
+		},
+	})
+	l.c.Check(rawBad == "" && rawN > 0, rel, l.name, r183b, l.fd.Pos(), "", "the raw map value is returned on a path where it can be an *inFlightValue (or is never returned: completed entries are lost)")
+	l.c.Check(valueBad == "", rel, l.name, r183c, l.fd.Pos(), "", valueBad)
+}
 
-	// ---- R18.6 conversions of the receiver are only used as sync.Map method receivers
+// storeFunnel checks a Store that delegates to LoadOrStore with a closure.
+func (l *lazyFn) storeFunnel(rel string, funnel *ast.CallExpr) {
+	var lit *ast.FuncLit
+	if len(funnel.Args) == 2 {
+		lit, _ = l.resolve(funnel.Args[1]).(*ast.FuncLit)
+	}
+	keyOK := len(funnel.Args) == 2 && core.ObjOf(l.inf, funnel.Args[0]) == l.key
+	if lit == nil || !keyOK {
+		l.c.Bad(rel, l.name, r184a, funnel.Pos(), "LoadOrStore is not called with Store's key and a function literal")
+		return
+	}
+	// the closure: every return yields the value parameter; the only effect is raising a flag
+	var flag types.Object
+	closureWhy := ""
+	for _, r := range core.ReturnsIn(lit.Body) {
+		if len(r.Results) != 1 || core.ObjOf(l.inf, l.resolve(r.Results[0])) != l.val {
+			closureWhy = "Store's compute closure returns something other than the value being stored"
+		}
+	}
+	if len(core.CallsIn(lit.Body)) > 0 {
+		closureWhy = "Store's compute closure does more than raise a flag and return the value"
+	}
+	ast.Inspect(lit.Body, func(n ast.Node) bool {
+		as, ok := n.(*ast.AssignStmt)
+		if !ok {
+			return true
+		}
+		for i, lhs := range as.Lhs {
+			o := core.ObjOf(l.inf, lhs)
+			if o == nil || core.ObjPos(o) > lit.Pos() && core.ObjPos(o) < lit.End() {
+				continue // the closure's own locals
+			}
+			cv := core.ConstOf(l.inf, as.Rhs[min(i, len(as.Rhs)-1)])
+			_, topLevel := indexOfStmt(lit.Body.List, as)
+			if len(as.Lhs) != len(as.Rhs) || cv == nil || cv.ExactString() != "true" || !topLevel || (flag != nil && flag != o) {
+				closureWhy = "Store's compute closure does more than raise a flag and return the value"
+				continue
+			}
+			flag = o
+		}
+		return true
+	})
+	if flag != nil {
+		// the flag starts lowered and is raised nowhere else
+		var init ast.Expr
+		n := 0
+		ast.Inspect(l.fd.Body, func(m ast.Node) bool {
+			if as, ok := m.(*ast.AssignStmt); ok {
+				for i, lhs := range as.Lhs {
+					if core.ObjOf(l.inf, lhs) == flag {
+						n++
+						if id, ok := core.Unparen(lhs).(*ast.Ident); ok && l.inf.Defs[id] == flag && len(as.Lhs) == len(as.Rhs) {
+							init = as.Rhs[i]
+						}
+					}
+				}
+			}
+			if vs, ok := m.(*ast.ValueSpec); ok {
+				for i, nm := range vs.Names {
+					if l.inf.Defs[nm] == flag && i < len(vs.Values) {
+						init = vs.Values[i]
+						n++
+					}
+				}
+			}
+			return true
+		})
+		startsFalse := false
+		if init == nil {
+			startsFalse = n == 1 // `var stored bool` plus the closure's assignment
+		} else if cv := core.ConstOf(l.inf, init); cv != nil && cv.ExactString() == "false" {
+			startsFalse = n == 2 // `stored := false` plus the closure's assignment
+		}
+		if !startsFalse {
+			closureWhy = "the flag does not start lowered, or is assigned outside the closure"
+		}
+	}
+	l.c.Check(closureWhy == "", rel, l.name, r184a, lit.Pos(), "", closureWhy)
+	const (
+		bCalled = 1 << iota
+		bOver
+		bFlagT
+	)
+	why := ""
+	core.NewFlow(l.c.M, l.inf, l.fd.Body).Run(&core.Automaton{
+		AtEnd: true,
+		Node: func(state int, n ast.Node) int {
+			for _, call := range core.CallsIn(n) {
+				switch {
+				case call == funnel:
+					state = bCalled
+				case l.isSyncMap(call, "Store"):
+					if len(call.Args) == 2 && core.ObjOf(l.inf, call.Args[0]) == l.key && core.ObjOf(l.inf, l.resolve(call.Args[1])) == l.val && state&bCalled != 0 {
+						state |= bOver
+					}
+				}
+			}
+			if r, ok := n.(*ast.ReturnStmt); ok && why == "" {
+				switch {
+				case state&bCalled == 0:
+					why = fmt.Sprintf("the exit at %s is reached without going through LoadOrStore: a value stored while a computation is in flight is overwritten by its result", l.c.M.Fset.Position(r.Pos()))
+				case state&(bOver|bFlagT) == 0:
+					why = fmt.Sprintf("the exit at %s is reached without sync.Map.Store(key, value) on a path where this call may not have created the entry: a Store ordered after an in-flight computation is lost", l.c.M.Fset.Position(r.Pos()))
+				}
+			}
+			return state
+		},
+		Edge: func(state int, facts []core.Fact) (int, bool) {
+			for _, f := range facts {
+				if id, ok := core.Unparen(f.Expr).(*ast.Ident); ok && flag != nil && core.ObjOf(l.inf, id) == flag && f.Val && state&bCalled != 0 {
+					state |= bFlagT
+				}
+			}
+			return state, true
+		},
+	})
+	l.c.Check(why == "", rel, l.name, r184b, l.fd.Pos(), "", why)
+}
+
+func indexOfStmt(list []ast.Stmt, s ast.Stmt) (int, bool) {
+	for i, x := range list {
+		if x == s {
+			return i, true
+		}
+	}
+	return -1, false
+}
+
+// storeInline checks a Store that runs the placeholder protocol itself: where the key was present, it overwrites after
+// having waited for a computation in flight.
+func (l *lazyFn) storeInline(rel string) {
+	const (
+		bLoadedT = 1 << iota
+		bLoadedF
+		bNotPH
+		bWaited
+		bOver
+		bPub
+	)
+	isInflightAssert := func(e ast.Expr) bool {
+		ta, ok := core.Unparen(e).(*ast.TypeAssertExpr)
+		if !ok || ta.Type == nil || core.ObjOf(l.inf, l.resolve(ta.X)) != l.src {
+			return false
+		}
+		tv, ok := l.inf.Types[ta.Type]
+		if !ok {
+			return false
+		}
+		nn := namedOf(tv.Type)
+		return nn != nil && nn.Obj() == l.inflight
+	}
+	okVars := map[types.Object]bool{}
+	ast.Inspect(l.fd.Body, func(n ast.Node) bool {
+		if as, ok := n.(*ast.AssignStmt); ok && len(as.Rhs) == 1 && len(as.Lhs) == 2 && isInflightAssert(as.Rhs[0]) {
+			if o := core.ObjOf(l.inf, as.Lhs[1]); o != nil {
+				okVars[o] = true
+			}
+		}
+		return true
+	})
+	overWhy, waitWhy := "", ""
+	core.NewFlow(l.c.M, l.inf, l.fd.Body).Run(&core.Automaton{
+		AtEnd: true,
+		Node: func(state int, n ast.Node) int {
+			for _, call := range core.CallsIn(n) {
+				if call == l.pubCall {
+					state = bPub
+				}
+				if x, ok := l.wg(call, "Wait"); ok && x != nil && x != l.pub {
+					state |= bWaited
+				}
+				if l.isSyncMap(call, "Store") && state&bLoadedT != 0 && len(call.Args) == 2 && core.ObjOf(l.inf, call.Args[0]) == l.key && core.ObjOf(l.inf, l.resolve(call.Args[1])) == l.val {
+					if state&(bNotPH|bWaited) == 0 && waitWhy == "" {
+						waitWhy = "sync.Map.Store(key, value) is reachable while the entry may be a computation in flight that was not waited for: its result then overwrites the stored value"
+					}
+					state |= bOver
+				}
+			}
+			if r, ok := n.(*ast.ReturnStmt); ok && overWhy == "" {
+				if state&bPub == 0 || (state&bLoadedT != 0 && state&bOver == 0) {
+					overWhy = fmt.Sprintf("the exit at %s is reached, with the key already present, without sync.Map.Store(key, value): the Store is lost", l.c.M.Fset.Position(r.Pos()))
+				}
+			}
+			return state
+		},
+		Edge: func(state int, facts []core.Fact) (int, bool) {
+			for _, f := range facts {
+				e := core.Unparen(f.Expr)
+				if id, ok := e.(*ast.Ident); ok {
+					o := core.ObjOf(l.inf, id)
+					switch {
+					case o != nil && o == l.loaded && state&bPub != 0:
+						if f.Val {
+							state |= bLoadedT
+						} else {
+							state |= bLoadedF
+						}
+					case okVars[o] && !f.Val:
+						state |= bNotPH
+					}
+				}
+				if isInflightAssert(e) && !f.Val {
+					state |= bNotPH
+				}
+			}
+			return state, true
+		},
+	})
+	l.c.Check(overWhy == "", rel, l.name, r184b, l.fd.Pos(), "", overWhy)
+	l.c.Check(waitWhy == "", rel, l.name, r184c, l.fd.Pos(), "", waitWhy)
+}
+
+func runR18(c *core.Ctx) {
+	const rel = "d2/lazymap"
+	inf := info(c, rel)
+	losF, los := mustDecl(c, rel, "(*LazySyncMap).LoadOrStore")
+	_, load := mustDecl(c, rel, "(*LazySyncMap).Load")
+	_, store := mustDecl(c, rel, "(*LazySyncMap).Store")
+	inflight, _ := mustObj(c, rel, "inFlightValue").(*types.TypeName)
+
+	lLos := newLazyFn(c, inf, los, inflight)
+	lLoad := newLazyFn(c, inf, load, inflight)
+	lStore := newLazyFn(c, inf, store, inflight)
+	if lLos.fParam == nil {
+		c.Unknown(rel, lLos.name, "compute parameter", los.Pos(), "no function-typed parameter")
+		return
+	}
+	if lLos.pubCall == nil {
+		c.Bad(rel, lLos.name, r182a, los.Pos(), "LoadOrStore does not claim the key with sync.Map.LoadOrStore: racing callers can both compute")
+		return
+	}
+	lLos.publisher(rel)
+	for _, l := range []*lazyFn{lLos, lLoad} {
+		if l.src == nil {
+			c.Unknown(rel, l.name, "R18.3 map-loaded value", l.fd.Pos(), "no sync.Map Load/LoadOrStore result variable")
+			continue
+		}
+		l.reader(rel)
+	}
+	// Store
+	var funnel *ast.CallExpr
+	ast.Inspect(store.Body, func(n ast.Node) bool {
+		if call, ok := n.(*ast.CallExpr); ok {
+			if cf := core.Callee(inf, call); cf != nil && cf.Origin() == losF {
+				funnel = call
+			}
+		}
+		return true
+	})
+	switch {
+	case funnel != nil && lStore.pubCall == nil:
+		lStore.storeFunnel(rel, funnel)
+	case lStore.pubCall != nil && funnel == nil:
+		lStore.publisher(rel)
+		if lStore.src != nil {
+			lStore.reader(rel)
+		}
+		lStore.storeInline(rel)
+	default:
+		c.Bad(rel, lStore.name, r184b, store.Pos(), "Store neither funnels through LoadOrStore nor claims the key with a placeholder of its own: a value stored while a computation is in flight is overwritten by its result")
+	}
+
+	// ---- R18.6 conversions of the receiver to *sync.Map are used only as receivers of sync.Map methods, directly or
+	// through a local that is used for nothing else
 	p := c.M.Pkg(rel)
 	lazyT, _ := mustObj(c, rel, "LazySyncMap").(*types.TypeName)
-	badConv := 0
-	convs := 0
+	badConv, convs := 0, 0
 	for _, file := range p.Syntax {
 		par := core.Parents(file)
+		isRecvUse := func(e ast.Expr) bool {
+			pn := par[e]
+			if pe, ok := pn.(*ast.ParenExpr); ok {
+				pn = par[pe]
+			}
+			sel, ok := pn.(*ast.SelectorExpr)
+			if !ok {
+				return false
+			}
+			mc, ok := par[sel].(*ast.CallExpr)
+			return ok && mc.Fun == ast.Expr(sel) && core.IsMethod(core.Callee(inf, mc), "sync", "Map", sel.Sel.Name)
+		}
 		ast.Inspect(file, func(n ast.Node) bool {
 			call, ok := n.(*ast.CallExpr)
 			if !ok || len(call.Args) != 1 {
@@ -365,21 +873,32 @@ func runR18(c *core.Ctx) {
 				return true
 			}
 			convs++
-			// parent must be a selector used as the function of a call (method call)
+			if isRecvUse(call) {
+				return true
+			}
+			// underlying := (*sync.Map)(m): every use of the local is a method receiver
 			pn := par[call]
 			if pe, ok := pn.(*ast.ParenExpr); ok {
 				pn = par[pe]
 			}
-			sel, ok := pn.(*ast.SelectorExpr)
-			if !ok {
+			as, ok := pn.(*ast.AssignStmt)
+			if !ok || as.Tok != token.DEFINE || len(as.Lhs) != 1 || len(as.Rhs) != 1 {
 				badConv++
 				return true
 			}
-			if mc, ok := par[sel].(*ast.CallExpr); !ok || mc.Fun != ast.Expr(sel) || !core.IsMethod(core.Callee(inf, mc), "sync", "Map", sel.Sel.Name) {
+			local := core.ObjOf(inf, as.Lhs[0])
+			okAll := local != nil
+			ast.Inspect(file, func(m ast.Node) bool {
+				if id, ok := m.(*ast.Ident); ok && inf.Uses[id] == local && !isRecvUse(id) {
+					okAll = false
+				}
+				return true
+			})
+			if !okAll {
 				badConv++
 			}
 			return true
 		})
 	}
-	c.Check(convs > 0 && badConv == 0, rel, "-", "R18.6 the map is touched only through sync.Map methods", token.NoPos, fmt.Sprintf("%d conversions, all method receivers", convs), fmt.Sprintf("%d of %d conversions of *LazySyncMap escape as values", badConv, convs))
+	c.Check(convs > 0 && badConv == 0, rel, "-", r186, token.NoPos, fmt.Sprintf("%d conversions, all method receivers", convs), fmt.Sprintf("%d of %d conversions of *LazySyncMap escape as values", badConv, convs))
 }
